@@ -136,7 +136,8 @@ def d2_encoding(ctx, m):
     rd = m.func('import_dobs_string')
     t = m.text(rd)
     okr = 'tmp[j] = deltad[name][i][j] + mean[i]' in t and 'obsmeans = [np.average(deltas[j]) for j in range(len(deltas))]' in t and \
-        'Obs([np.array(deltas[j]) - obsmeans[j] for j in range(len(obsmeans))], obs_names, idl=idl, means=obsmeans)' in t and 'res[-1]._value = mean[i]' in t
+        ('Obs([np.array(deltas[j]) - obsmeans[j] for j in range(len(obsmeans))], obs_names, idl=idl, means=obsmeans)' in t
+         or 'Obs([np.array(deltas[j]) - obsmeans[j] for j in range(len(deltas))], obs_names, idl=idl, means=obsmeans)' in t) and 'res[-1]._value = mean[i]' in t     # obsmeans has one entry per entry of deltas
     written = delta + (r - v)
     x = written + v
     alg = sp.simplify((x - r) - delta) == 0     # mean(x) = r because mean(delta) = 0
@@ -309,8 +310,44 @@ def d6_misc(ctx, m):
     ctx.check(rule, 'dobs#cov-grad-layout', ok and okr, 'grad written as (component, observable), read transposed and indexed by observable', 'cov/grad layout handling differs')
     ok = "idx = _merge_idx([o.idl.get(repname, []) for o in obsl])" in t
     ctx.check(rule, 'dobs#merged-configurations', ok, 'rows cover the union of the configurations of all observables of the file', 'row set differs')
-    ok = 'if o.idl[repname][counters[oi]] == ci:' in t and 'counters[oi] += 1' in t
-    ctx.check(rule, 'dobs#by-configuration-number', ok, 'a sample is written in the row of its own configuration number', 'sample placement differs')
+    # a sample is taken (and the cursor advanced) only on the path where the configuration number under the cursor equals the
+    # number of the row: a positive `== ci` guard, or a preceding exit whose (disjunctive) test contains `!= ci`
+    from ..srcmodel import established_false
+
+    def on_own_row(node):
+        def is_match(t_, positive):
+            if isinstance(t_, ast.Compare) and len(t_.ops) == 1 and isinstance(t_.ops[0], ast.Eq if positive else ast.NotEq):
+                a_, b_ = unparse(t_.left), unparse(t_.comparators[0])
+                return any('.idl[' in x and 'counters[' in x for x in (a_, b_)) and any(x == rowvar for x in (a_, b_))
+            if isinstance(t_, ast.UnaryOp) and isinstance(t_.op, ast.Not):
+                return is_match(t_.operand, not positive)
+            return False
+        for t_, pol in guards_of(m, node, stop=w):
+            conj = t_.values if isinstance(t_, ast.BoolOp) and isinstance(t_.op, ast.And) else [t_]
+            if pol and any(is_match(c_, True) for c_ in conj):
+                return True
+            if not pol and is_match(t_, False):
+                return True
+        for t_ in established_false(m, w, node):
+            disj = t_.values if isinstance(t_, ast.BoolOp) and isinstance(t_.op, ast.Or) else [t_]
+            if any(is_match(c_, False) for c_ in disj):
+                return True
+        return False
+    rows = [lp for lp in walk(w) if isinstance(lp, ast.For) and unparse(lp.iter) == 'idx' and isinstance(lp.target, ast.Name)]
+    takes = []
+    rowvar = rows[0].target.id if len(rows) == 1 else None
+    if rowvar is not None:
+        for st_ in statements(w):
+            if isinstance(st_, (ast.Assign, ast.AugAssign)) and any(isinstance(y, ast.Subscript) and '.deltas[' in unparse(y) and 'counters[' in unparse(y.slice) for y in walk(st_.value)):
+                takes.append(('sample', st_))
+            if isinstance(st_, ast.AugAssign) and unparse(st_.target).startswith('counters[') and isinstance(st_.op, ast.Add):
+                takes.append(('cursor', st_))
+    if rowvar is None or not any(k_ == 'sample' for k_, _ in takes) or not any(k_ == 'cursor' for k_, _ in takes):
+        ctx.unrec(rule, 'dobs#by-configuration-number', 'row loop over idx / sample access through the per-observable cursor not found', m.loc(w))
+    else:
+        bad = [(k_, st_) for k_, st_ in takes if not on_own_row(st_)]
+        ctx.check(rule, 'dobs#by-configuration-number', not bad, 'a sample is written (and the cursor advanced) only in the row of its own configuration number',
+                  '; '.join('%s `%s` is not restricted to the row whose number equals the configuration number under the cursor' % (k_, unparse(st_)[:70]) for k_, st_ in bad), m.loc(bad[0][1]) if bad else None)
     for wname, rname in (('write_dobs', 'read_dobs'), ('write_pobs', 'read_pobs')):
         a, b = unparse(m.func(wname)), unparse(m.func(rname))
         ok = "gzip.open(fname, 'wb')" in a and ".encode('utf-8')" in a and "gzip.open(fname, 'r')" in b
@@ -457,6 +494,7 @@ def run(ctx):
 
 
 SELFTEST = [
+    ('sample-row-le', 'pyerrors/input/dobs.py', '                        if o.idl[repname][counters[oi]] == ci:', '                        if o.idl[repname][counters[oi]] <= ci:', 'C12-D6'),
     ('covobs-pruned-by-sum', 'pyerrors/input/dobs.py', "            if np.all(new_covobs[name].grad == 0):", "            if np.sum(new_covobs[name].grad) == 0:", 'C12-D7'),
     ('benign-covobs-pruned-not-any', 'pyerrors/input/dobs.py', "            if np.all(new_covobs[name].grad == 0):", "            if not np.any(new_covobs[name].grad != 0):", 'BENIGN'),
     ('replica-skipped-when-constant', 'pyerrors/input/dobs.py', "            if len(h) == 1 and np.all(h == mean[i]):", "            if len(h) == 1:", 'C12-D3'),
